@@ -25,6 +25,13 @@ CLAIMS = {
             "messages must round-trip. BlockOption.decode is additionally translated to z3 bit-vectors (E2).",
             "reference codec vf/refcodec.py written from the RFC; byte-string lengths concrete per obligation; option numbers by index or pre-populated enum ranges; CPython UTF-8 codec trusted",
             TECH_E1 + "; AST->z3 bit-vector translation for BlockOption.decode", "DESIGN.md 5 C01"),
+    "C09": ("On stack S as server, handler outcome (13 kinds incl. every renderable error class, arbitrary exceptions such as "
+            "KeyError/IndexError/TimeoutError, wrong return types, failing error renderers) x method x CON/NON x fast/slow x "
+            "known/unknown path x nested site x concurrent failing/succeeding neighbour, all by symbolic index, are run to "
+            "quiescence; exactly one final response with the request token, the expected code and diagnostic payload, a bare "
+            "5.00 without leaked text, neighbour and later requests unaffected; no-site contexts answer 4.04.",
+            "fake datagram transport, SimLoop; independent dimensions are pruned pairwise (stated in the harness); No-Response suppression is C10's",
+            TECH_E1, "DESIGN.md 5 C09"),
     "C10": ("On stack S (real Context/TokenManager/MessageManager/MessageInterfaceUDP6/UDP6EndpointAddress over a fake datagram "
             "transport, virtual time) one incoming datagram of every type x 13 codes x token known/unknown x received on "
             "unicast/multicast x fast/slow handler x 12 No-Response values x 3 response classes (all by symbolic index) is "
